@@ -3,4 +3,14 @@ EXTENDS Keeper
 MCOrder == <<"w1", "w2", "w3">>
 MCOrder2 == <<"w1", "w2">>
 QueueSmall == BagCardinality(K.queue) <= 3
+(* Liveness (checked under SPECIFICATION FairSpec, without a state constraint): with the plotter's own steps and the
+   end of a running plot weakly fair, nothing the plotter has started stays unfinished - a popped request is resolved,
+   a space does not stay "plotting" for ever - whatever the callers do in between. *)
+PlotterSteps == \/ CanStep1(K) /\ K' = Step1(K)
+                \/ \E o \in {"complete", "aborted"} : CanPlotEnd(K) /\ K' = PlotEnd(K, o)
+                \/ CanStep3(K) /\ K' = Step3(K)
+FairSpec == Spec /\ WF_vars(PlotterSteps)
+PoppedResolved == (K.plt.pc = "popped") ~> (K.plt.pc # "popped")
+PlottingEnds == \A w \in Spaces : (K.st[w] = "plotting") ~> (K.st[w] # "plotting")
+PlotterReturnsToIdle == []<>(K.plt.pc = "idle")
 =============================================================================
